@@ -30,14 +30,22 @@ Part 2  e57-from-xyz
     **`xyz_points_stored`** = `RoundTrip.C01_section_roundtrip` instantiated: `new`, all `add_point`s and
     `finalize` succeed and the raw iterator returns exactly the converted points, in order, then `done`.
 Part 3  **`parseUnsigned_255_roundtrip`** (`some n` iff `n ≤ 255`), `colourToU8_parses_back`.
-Part 4  e57-to-xyz
+Part 4  e57-to-xyz (the tool's point cloud has NO pose; since the repair of the simple iterator the pose is applied
+        only if the option is on AND the point cloud has one, so no arithmetic touches the coordinates)
   * **`toXyzPoint_eq`** — structural, no float fact: the six numbers printed for `[x,y,z,r,g,b]` are
-    `outX/outY/outZ` (pose applied to the widened coordinates, `as f32`) and `outColour` (normalise, `*255 as u8`).
-  * `IEEEFacts` — the IEEE-754 facts about the OPAQUE native `Float` that the coordinate path needs (listed
-    there; nothing about `Float` is provable in Lean, so they are hypotheses; each is true of binary64
-    round-to-nearest arithmetic and was spot-checked by evaluation).  **`IEEEFacts.coords`**: finite `f32`
-    coordinates come back with the same bit pattern, except `−0.0 ↦ +0.0` (`canon`).
-    `xyz_coords_bits_statement_false` (full bit identity contradicts `IEEEFacts`), `xyz_coords_bits_partial`.
+    `back x`, `back y`, `back z` (the stored `f32` widened, held as a bit pattern, narrowed `as f32`; each a function
+    of its own coordinate only) and `outColour` (normalise, `*255 as u8`).
+  * `IEEEFacts` — the TWO facts about the OPAQUE native `Float` that the coordinate path still needs (hypotheses;
+    spot-checked by evaluation): `bits` (f64 → bit pattern → f64 is the identity on a widened f32) and `widen_back`
+    (`f32 → f64 → f32` is the identity), both for every pattern that is not a NaN.  **`IEEEFacts.coords`**: every
+    non-NaN `f32` coordinate — −0.0, subnormals, ±∞ included — comes back with the same bit pattern.
+    **`xyz_coords_bits`** (the full bit identity that `xyz_coords_bits_statement_false` refuted before the repair),
+    `xyz_coords_bits_all`, `xyz_coords_bits_special` (−0.0, +∞, −∞), `xyz_coords_bits_partial` (now a corollary);
+    `NaNFacts`, `xyz_coords_nan`: a NaN comes back as a NaN (Lean's `toBits` canonicalises NaNs, Rust leaves the
+    payload after a cast unspecified, so no payload claim).
+  * 4.4, the behaviour before the repair: `IdentityPoseFacts` (the former twelve `IEEEFacts`),
+    `IdentityPoseFacts.coords` (the former `IEEEFacts.coords`, about `poseX/Y/Z` = `transformPoint` with the identity
+    rotation and zero translation), **`identity_pose_not_neutral`**: the identity pose turns −0.0 into +0.0.
   * `ColourTable` — the 256-entry colour table on the hardware floats (hypothesis; theorem for the soft-float
     model: `SF.colour_roundTrip`).  **`toXyzPoint_roundtrip`**, **`xyzRoundTrip_spec`** (whole file).
 Non-vacuity (`Ex`): `dev2` (two 32-byte pages, by the theorem and by kernel evaluation of the model),
@@ -850,21 +858,23 @@ theorem colourToU8_parses_back (c : UInt32) :
 
 /-! # Part 4 — e57-to-xyz: what is printed for a stored point
 
+The point cloud e57-from-xyz writes has NO pose (`xyzPointCloud.transform = none`).  Since the repair of the
+simple iterator (`postProcess`: the pose is applied only if the option is on AND the point cloud has a pose)
+no arithmetic touches the coordinates on this path any more: stored `f32` → `as f64` → (bit pattern in the
+`Point` structure) → `as f32`.
+
 ## 4.1 structure: `toXyzPoint` unfolded (no fact about floats needed) -/
+
+/-- `f32 → f64` (exact) -/
+def widen (x : UInt32) : Float := (Float32.ofBits x).toFloat
 
 /-- the `f64` the simple iterator holds for a stored `f32` coordinate -/
 def emb (x : UInt32) : Float := Float.ofBits (Float32.ofBits x).toFloat.toBits
 
-/-- rotation matrix and translation the iterator computes for a point cloud without a pose -/
-def idRot : Array Float := (prepareTransform xyzPointCloud).1
-def idTr : Float × Float × Float := (prepareTransform xyzPointCloud).2
-
-/-- `v as f32`, after the value went through the `Point` structure as a bit pattern -/
-def outF32 (v : Float) : Nat := (Float.ofBits v.toBits).toFloat32.toBits.toNat
-
-def outX (x y z : UInt32) : Nat := outF32 (idRot[0]! * emb x + idRot[3]! * emb y + idRot[6]! * emb z + idTr.1)
-def outY (x y z : UInt32) : Nat := outF32 (idRot[1]! * emb x + idRot[4]! * emb y + idRot[7]! * emb z + idTr.2.1)
-def outZ (x y z : UInt32) : Nat := outF32 (idRot[2]! * emb x + idRot[5]! * emb y + idRot[8]! * emb z + idTr.2.2)
+/-- what e57-to-xyz obtains for the stored coordinate `x`: widened, held as a bit pattern in the `Point`
+    structure, never touched, narrowed (`as f32`).  (Before the repair this depended on all three
+    coordinates: `poseX/poseY/poseZ` in 4.4.) -/
+def back (x : UInt32) : Nat := (emb x).toFloat32.toBits.toNat
 
 /-- the normalisation range of an Integer colour record with limits 0..255 -/
 def colourRange : Range := Range.fromMinMax (i64ToFloat 0) (i64ToFloat 255)
@@ -872,33 +882,220 @@ def colourRange : Range := Range.fromMinMax (i64ToFloat 0) (i64ToFloat 255)
 /-- colour `c` stored as Integer, normalised to `[0,1]` as `f32`, printed as `(c * 255.) as u8` -/
 def outColour (c : Int) : Nat := colourToU8 (colourRange.normalize (Float.ofBits (i64ToFloat c).toBits))
 
+/-- the tool's point cloud has no pose … -/
+theorem xyzPointCloud_no_pose : xyzPointCloud.transform = none := rfl
+
+/-- … so each printed coordinate is a function of the stored coordinate alone (no pose arithmetic) -/
 theorem toXyzPoint_eq (x y z : UInt32) (r g b : Int) :
     toXyzPoint [.single x, .single y, .single z, .integer r, .integer g, .integer b] =
-      some [outX x y z, outY x y z, outZ x y z, outColour r, outColour g, outColour b] := by
+      some [back x, back y, back z, outColour r, outColour g, outColour b] := by
   rfl
 
 
-/-! ## 4.2 the coordinates, over explicit IEEE-754 facts about the native `Float` -/
+/-! ## 4.2 the coordinates come back bit for bit
 
-def fOne : Float := Float.ofBits f64One
-def fZero : Float := Float.ofBits 0
-def fNegZero : Float := Float.ofBits 0x8000000000000000
+`Float`, `Float32` are opaque to the kernel, so the two conversions are characterised by hypotheses.  Of the
+twelve facts the identity-pose arithmetic needed before the repair (kept in 4.4 as `IdentityPoseFacts`), TWO
+remain, and none of them is about arithmetic. -/
 
-/-- `f32 → f64` (exact) -/
-def widen (x : UInt32) : Float := (Float32.ofBits x).toFloat
+/-- a binary32 pattern that is not a NaN: exponent field below 255, or 255 with a zero fraction (±∞).
+    −0.0 (`0x80000000`), the subnormals and both infinities are included. -/
+def NotNaN32 (x : UInt32) : Prop := x.toNat % 2147483648 ≤ 2139095040
+
+instance (x : UInt32) : Decidable (NotNaN32 x) := by unfold NotNaN32; infer_instance
 
 /-- a finite binary32 pattern: the exponent field is not 255 -/
 def Fin32 (x : UInt32) : Prop := x.toNat % 2147483648 < 2139095040
 
 instance (x : UInt32) : Decidable (Fin32 x) := by unfold Fin32; infer_instance
 
+theorem Fin32.notNaN {x : UInt32} (h : Fin32 x) : NotNaN32 x := Nat.le_of_lt h
+
+/-- The facts about the hardware floats the coordinate path of e57-to-xyz still needs:
+    * `bits` — transmuting the widened value to its bit pattern and back (`f64::to_bits`/`from_bits`, the
+      `Point` structure of the model) is the identity;
+    * `widen_back` — `f32 → f64 → f32` is the identity.
+    Both for every pattern that is not a NaN (−0.0 and ±∞ included).  NaNs are excluded because Lean's
+    `Float.toBits`/`Float32.toBits` return the canonical quiet NaN for every NaN (evaluation:
+    `0x7F800001 ↦ 0x7FC00000`), and Rust leaves the payload of a NaN produced by a cast unspecified; a NaN
+    comes back as a NaN: `NaNFacts`, `xyz_coords_nan`.  Spot-checked by evaluation on the hardware. -/
+structure IEEEFacts : Prop where
+  bits : ∀ x, NotNaN32 x → Float.ofBits (widen x).toBits = widen x
+  widen_back : ∀ x, NotNaN32 x → (widen x).toFloat32.toBits = x
+
+/-- what is assumed about NaNs: widening, transmuting and narrowing a NaN give a NaN -/
+structure NaNFacts : Prop where
+  widen_nan : ∀ x, ¬ NotNaN32 x → (widen x).isNaN = true
+  bits_nan : ∀ v : Float, v.isNaN = true → (Float.ofBits v.toBits).isNaN = true
+  narrow_nan : ∀ v : Float, v.isNaN = true → ¬ NotNaN32 v.toFloat32.toBits
+
+namespace IEEEFacts
+variable (F : IEEEFacts)
+include F
+
+theorem emb_eq (x : UInt32) (hx : NotNaN32 x) : emb x = widen x := F.bits x hx
+
+/-- one coordinate: the stored bit pattern comes back -/
+theorem back_eq (x : UInt32) (hx : NotNaN32 x) : back x = x.toNat := by
+  unfold back
+  rw [F.emb_eq x hx, F.widen_back x hx]
+
+/-- **the three coordinates come back**: the bit patterns e57-to-xyz obtains are the stored ones, for
+    every value that is not a NaN — −0.0 stays −0.0, ±∞ stay ±∞, and an infinite coordinate no longer
+    turns its finite neighbours into NaN -/
+theorem coords (x y z : UInt32) (hx : NotNaN32 x) (hy : NotNaN32 y) (hz : NotNaN32 z) :
+    back x = x.toNat ∧ back y = y.toNat ∧ back z = z.toNat :=
+  ⟨F.back_eq x hx, F.back_eq y hy, F.back_eq z hz⟩
+
+end IEEEFacts
+
+/-- the statement with full bit identity for finite coordinates: before the repair it was FALSE
+    (`xyz_coords_bits_statement_false`: −0.0 came back as +0.0; now `identity_pose_not_neutral` in 4.4) … -/
+def xyz_coords_bits_statement : Prop :=
+  ∀ x y z : UInt32, Fin32 x → Fin32 y → Fin32 z →
+    back x = x.toNat ∧ back y = y.toNat ∧ back z = z.toNat
+
+/-- … and is now a theorem (relative to the two `IEEEFacts`) -/
+theorem xyz_coords_bits (F : IEEEFacts) : xyz_coords_bits_statement :=
+  fun x y z hx hy hz => F.coords x y z hx.notNaN hy.notNaN hz.notNaN
+
+/-- every coordinate by itself, infinities included: no dependence on the other two coordinates -/
+theorem xyz_coords_bits_all (F : IEEEFacts) (x : UInt32) (hx : NotNaN32 x) : back x = x.toNat :=
+  F.back_eq x hx
+
+/-- −0.0, +∞ and −∞ come back as themselves (instances of `xyz_coords_bits_all`) -/
+theorem xyz_coords_bits_special (F : IEEEFacts) :
+    back 0x80000000 = 0x80000000 ∧ back 0x7F800000 = 0x7F800000 ∧ back 0xFF800000 = 0xFF800000 :=
+  ⟨F.back_eq _ (by decide), F.back_eq _ (by decide), F.back_eq _ (by decide)⟩
+
+/-- the former strongest true variant (bit identity for every finite coordinate other than −0.0), now a
+    corollary of `xyz_coords_bits`: the side conditions `≠ −0.0` are no longer needed -/
+theorem xyz_coords_bits_partial (F : IEEEFacts) (x y z : UInt32) (hx : Fin32 x) (hy : Fin32 y)
+    (hz : Fin32 z) :
+    (x ≠ 0x80000000 → back x = x.toNat) ∧ (y ≠ 0x80000000 → back y = y.toNat) ∧
+    (z ≠ 0x80000000 → back z = z.toNat) := by
+  obtain ⟨h1, h2, h3⟩ := xyz_coords_bits F x y z hx hy hz
+  exact ⟨fun _ => h1, fun _ => h2, fun _ => h3⟩
+
+/-- a NaN comes back as a NaN (which one is not specified) -/
+theorem xyz_coords_nan (N : NaNFacts) (x : UInt32) (hx : ¬ NotNaN32 x) :
+    ∃ n : UInt32, ¬ NotNaN32 n ∧ back x = n.toNat := by
+  refine ⟨_, ?_, rfl⟩
+  exact N.narrow_nan _ (N.bits_nan _ (N.widen_nan x hx))
+
+/-! ## 4.3 colours, and the whole file -/
+
+/-- The colour path on the hardware floats: Integer 0..255 → normalised `f32` → `(c * 255.) as u8` is the
+    identity.  A closed, finite fact (256 cases); it evaluates to `true` on the hardware, and it is a
+    THEOREM for the soft-float model of the same operations (`SF.colour_roundTrip` in
+    `E57/Proofs/SoftFloat.lean`, which the differential suite `sfloat` ties to the hardware). -/
+def ColourTable : Prop := ∀ c : Nat, c < 256 → outColour (c : Int) = c
+
+/-- **one point through e57-from-xyz → file → e57-to-xyz**: the three bit patterns and the three colours -/
+theorem toXyzPoint_roundtrip (F : IEEEFacts) (C : ColourTable) (x y z : UInt32) (r g b : Nat)
+    (hx : NotNaN32 x) (hy : NotNaN32 y) (hz : NotNaN32 z) (hr : r ≤ 255) (hg : g ≤ 255) (hb : b ≤ 255) :
+    toXyzPoint (xyzValues x y z r g b) = some [x.toNat, y.toNat, z.toNat, r, g, b] := by
+  unfold xyzValues
+  rw [toXyzPoint_eq]
+  obtain ⟨h1, h2, h3⟩ := F.coords x y z hx hy hz
+  rw [h1, h2, h3, C r (by omega), C g (by omega), C b (by omega)]
+
+/-- what e57-to-xyz prints for a stored point of the tool's prototype: the stored numbers -/
+def viewBack (pt : List Value) : List Nat :=
+  pt.map (fun v => match v with
+    | .single b => b.toNat
+    | .integer i => i.toNat
+    | _ => 0)
+
+theorem viewBack_xyzValues (x y z : UInt32) (r g b : Nat) :
+    viewBack (xyzValues x y z r g b) = [x.toNat, y.toNat, z.toNat, r, g, b] := by
+  simp [viewBack, xyzValues]
+
+/-- every converted point has the shape `[x, y, z, r, g, b]` with 8-bit colours -/
+theorem xyzPoints_shape (fp : FloatParse) (lines : List String) (pts : List (List Value))
+    (h : xyzPoints fp lines = some pts) :
+    ∀ pt ∈ pts, ∃ x y z r g b, pt = xyzValues x y z r g b ∧ r ≤ 255 ∧ g ≤ 255 ∧ b ≤ 255 := by
+  obtain ⟨e, _⟩ := xyzPoints_eq fp lines pts h
+  intro pt hpt
+  rw [e, List.mem_filterMap] at hpt
+  obtain ⟨l, _, hl⟩ := hpt
+  have hl' : fromXyzLine fp l = some (some pt) := by
+    cases hf : fromXyzLine fp l with
+    | none => rw [hf] at hl; cases hl
+    | some o =>
+      rw [hf] at hl
+      cases o with
+      | none => cases hl
+      | some v => cases hl; rfl
+  obtain ⟨_, x, y, z, r, g, b, _, _, _, h3, h4, h5, rfl⟩ := (fromXyzLine_spec fp l pt).1 hl'
+  exact ⟨x, y, z, r, g, b, rfl, parseUnsigned_le _ _ _ h3, parseUnsigned_le _ _ _ h4,
+    parseUnsigned_le _ _ _ h5⟩
+
+/-- **C20, XYZ → E57 → XYZ, value level**: for a text file that is converted without a parse error and
+    whose coordinates are not NaN (−0.0 and ±∞ allowed), the numbers e57-to-xyz obtains from the stored
+    points are, line by converted line and in order, the BIT PATTERNS of the `f32` coordinates and the 8-bit
+    colours that e57-from-xyz parsed.  Relative to the two `IEEEFacts` and `ColourTable` (hardware floats). -/
+theorem xyzRoundTrip_spec (F : IEEEFacts) (C : ColourTable) (fp : FloatParse) (lines : List String)
+    (pts : List (List Value)) (h : xyzPoints fp lines = some pts)
+    (hfin : ∀ pt ∈ pts, ∀ b, Value.single b ∈ pt → NotNaN32 b) :
+    xyzRoundTrip fp lines = some (pts.map viewBack) := by
+  rw [xyzRoundTrip_eq, h, Option.map_some]
+  congr 1
+  have hs := xyzPoints_shape fp lines pts h
+  clear h
+  induction pts with
+  | nil => rfl
+  | cons pt rest ih =>
+    obtain ⟨x, y, z, r, g, b, rfl, hr, hg, hb⟩ := hs _ (List.mem_cons_self)
+    have hf := hfin _ (List.mem_cons_self)
+    have e := toXyzPoint_roundtrip F C x y z r g b (hf x (by simp [xyzValues]))
+      (hf y (by simp [xyzValues])) (hf z (by simp [xyzValues])) hr hg hb
+    rw [List.filterMap_cons, e, List.map_cons, viewBack_xyzValues,
+      ih (fun pt hpt => hfin pt (List.mem_cons_of_mem _ hpt)) (fun pt hpt => hs pt (List.mem_cons_of_mem _ hpt))]
+
+/-! ## 4.4 the behaviour before the repair: the identity pose is not neutral
+
+Kept as documentation of the defect.  Before the repair `postProcess` applied `transformPoint` with the
+rotation and translation of `prepareTransform` also to a point cloud without a pose, i.e. it computed
+`1·x + 0·y + 0·z + 0` and so on.  Under the twelve `IdentityPoseFacts` (the former `IEEEFacts`) that turns −0.0
+into +0.0 (`identity_pose_not_neutral`, the former `xyz_coords_bits_statement_false`); an infinite coordinate
+made the other two NaN (0·∞; not covered by these facts, which speak about finite values only). -/
+
+/-- `v as f32`, after the value went through the `Point` structure as a bit pattern once more -/
+def outF32 (v : Float) : Nat := (Float.ofBits v.toBits).toFloat32.toBits.toNat
+
+/-- rotation matrix and translation the iterator computes for a point cloud without a pose -/
+def idRot : Array Float := (prepareTransform xyzPointCloud).1
+def idTr : Float × Float × Float := (prepareTransform xyzPointCloud).2
+
+/-- `transformPoint` with the identity pose on the view of a stored point `(x, y, z)` -/
+def posed (x y z : UInt32) : Coord :=
+  (transformPoint idRot idTr
+    ⟨⟨0, (widen x).toBits, (widen y).toBits, (widen z).toBits⟩, ⟨2, 0, 0, 0⟩, none, none, -1, -1⟩).cartesian
+
+/-- what e57-to-xyz obtained from the posed coordinates (`as f32`) -/
+def poseX (x y z : UInt32) : Nat := (Float.ofBits (posed x y z).a).toFloat32.toBits.toNat
+def poseY (x y z : UInt32) : Nat := (Float.ofBits (posed x y z).b).toFloat32.toBits.toNat
+def poseZ (x y z : UInt32) : Nat := (Float.ofBits (posed x y z).c).toFloat32.toBits.toNat
+
+theorem poseX_eq (x y z : UInt32) :
+    poseX x y z = outF32 (idRot[0]! * emb x + idRot[3]! * emb y + idRot[6]! * emb z + idTr.1) := rfl
+theorem poseY_eq (x y z : UInt32) :
+    poseY x y z = outF32 (idRot[1]! * emb x + idRot[4]! * emb y + idRot[7]! * emb z + idTr.2.1) := rfl
+theorem poseZ_eq (x y z : UInt32) :
+    poseZ x y z = outF32 (idRot[2]! * emb x + idRot[5]! * emb y + idRot[8]! * emb z + idTr.2.2) := rfl
+
+def fOne : Float := Float.ofBits f64One
+def fZero : Float := Float.ofBits 0
+def fNegZero : Float := Float.ofBits 0x8000000000000000
+
 /-- The facts about the hardware floats (`Float`, `Float32` are opaque in Lean) the coordinate path
-    needs.  All are instances of IEEE-754 round-to-nearest arithmetic:
+    needed while the identity pose was applied.  All are instances of IEEE-754 round-to-nearest arithmetic:
     `pose` is a closed fact (the identity quaternion gives the identity matrix; confirmed by evaluation),
     the others are the laws "1·v = v", "0·v = ±0", "v + (+0) = v unless v = −0", "v + (−0) = v",
     "(−0) + (+0) = +0", "transmuting a finite `f64` to bits and back is the identity",
     "`f32 → f64` is finite and `f32 → f64 → f32` is the identity on finite values", and the images of ±0. -/
-structure IEEEFacts : Prop where
+structure IdentityPoseFacts : Prop where
   pose : prepareTransform xyzPointCloud =
     (#[fOne, fZero, fZero, fZero, fOne, fZero, fZero, fZero, fOne], (fZero, fZero, fZero))
   one_mul : ∀ v : Float, v.isFinite = true → fOne * v = v
@@ -913,11 +1110,11 @@ structure IEEEFacts : Prop where
   widen_zero : widen 0 = fZero
   widen_negZero : widen 0x80000000 = fNegZero
 
-/-- what comes back for a stored coordinate: the same bit pattern, except that −0.0 becomes +0.0 -/
+/-- what came back for a stored coordinate: the same bit pattern, except that −0.0 became +0.0 -/
 def canon (x : UInt32) : Nat := if x = 0x80000000 then 0 else x.toNat
 
-namespace IEEEFacts
-variable (F : IEEEFacts)
+namespace IdentityPoseFacts
+variable (F : IdentityPoseFacts)
 include F
 
 theorem zero_finite : fZero.isFinite = true := by
@@ -1022,17 +1219,17 @@ theorem idRot_eq : idRot = #[fOne, fZero, fZero, fZero, fOne, fZero, fZero, fZer
 theorem idTr_eq : idTr = (fZero, fZero, fZero) := by
   unfold idTr; rw [F.pose]
 
-/-- **the three coordinates come back**: for finite `f32` inputs the bit patterns e57-to-xyz obtains are
-    the stored ones, except that `−0.0` comes back as `+0.0` -/
+/-- the old `IEEEFacts.coords`: with the identity pose applied, for finite `f32` inputs the bit patterns
+    obtained are the stored ones, except that `−0.0` comes back as `+0.0` -/
 theorem coords (x y z : UInt32) (hx : Fin32 x) (hy : Fin32 y) (hz : Fin32 z) :
-    outX x y z = canon x ∧ outY x y z = canon y ∧ outZ x y z = canon z := by
+    poseX x y z = canon x ∧ poseY x y z = canon y ∧ poseZ x y z = canon z := by
   have fx := F.widen_finite x hx
   have fy := F.widen_finite y hy
   have fz := F.widen_finite z hz
   have zx : IsZero (fZero * widen x) := F.zero_mul _ fx
   have zy : IsZero (fZero * widen y) := F.zero_mul _ fy
   have zz : IsZero (fZero * widen z) := F.zero_mul _ fz
-  unfold outX outY outZ
+  rw [poseX_eq, poseY_eq, poseZ_eq]
   rw [F.idRot_eq, F.idTr_eq, F.emb_eq x hx, F.emb_eq y hy, F.emb_eq z hz]
   refine ⟨?_, ?_, ?_⟩
   · show outF32 (fOne * widen x + fZero * widen y + fZero * widen z + fZero) = _
@@ -1048,105 +1245,16 @@ theorem coords (x y z : UInt32) (hx : Fin32 x) (hy : Fin32 y) (hz : Fin32 z) :
       F.like_add_zero fz (F.like_add_left fz (like_refl _) (F.isZero_add zx zy))]
     exact F.outF32_canon z hz
 
-end IEEEFacts
+end IdentityPoseFacts
 
-/-- the statement with full bit identity … -/
-def xyz_coords_bits_statement : Prop :=
-  ∀ x y z : UInt32, Fin32 x → Fin32 y → Fin32 z →
-    outX x y z = x.toNat ∧ outY x y z = y.toNat ∧ outZ x y z = z.toNat
-
-/-- … contradicts IEEE-754 arithmetic: `−0.0` (finite) comes back as `+0.0`, because the pose is applied
-    even when the point cloud has none (`… + 0.0` turns `−0` into `+0`).  Numerically nothing changes.
-    (Relative to `IEEEFacts`: the native `Float` is opaque, so nothing about it is provable outright;
-    evaluation on the hardware agrees: `outX 0x80000000 _ _` evaluates to `0`.) -/
-theorem xyz_coords_bits_statement_false (F : IEEEFacts) : ¬ xyz_coords_bits_statement := by
-  intro h
-  have h1 := (h 0x80000000 0 0 (by decide) (by decide) (by decide)).1
-  rw [(F.coords 0x80000000 0 0 (by decide) (by decide) (by decide)).1] at h1
-  revert h1; decide
-
-/-- the strongest true variant: bit identity for every finite coordinate other than `−0.0`
-    (and `−0.0 ↦ +0.0`: `IEEEFacts.coords`) -/
-theorem xyz_coords_bits_partial (F : IEEEFacts) (x y z : UInt32) (hx : Fin32 x) (hy : Fin32 y)
-    (hz : Fin32 z) :
-    (x ≠ 0x80000000 → outX x y z = x.toNat) ∧ (y ≠ 0x80000000 → outY x y z = y.toNat) ∧
-    (z ≠ 0x80000000 → outZ x y z = z.toNat) := by
-  obtain ⟨h1, h2, h3⟩ := F.coords x y z hx hy hz
-  refine ⟨fun h => ?_, fun h => ?_, fun h => ?_⟩
-  · rw [h1, canon, if_neg h]
-  · rw [h2, canon, if_neg h]
-  · rw [h3, canon, if_neg h]
-
-/-! ## 4.3 colours, and the whole file -/
-
-/-- The colour path on the hardware floats: Integer 0..255 → normalised `f32` → `(c * 255.) as u8` is the
-    identity.  A closed, finite fact (256 cases); it evaluates to `true` on the hardware, and it is a
-    THEOREM for the soft-float model of the same operations (`SF.colour_roundTrip` in
-    `E57/Proofs/SoftFloat.lean`, which the differential suite `sfloat` ties to the hardware). -/
-def ColourTable : Prop := ∀ c : Nat, c < 256 → outColour (c : Int) = c
-
-/-- **one point through e57-from-xyz → file → e57-to-xyz** -/
-theorem toXyzPoint_roundtrip (F : IEEEFacts) (C : ColourTable) (x y z : UInt32) (r g b : Nat)
-    (hx : Fin32 x) (hy : Fin32 y) (hz : Fin32 z) (hr : r ≤ 255) (hg : g ≤ 255) (hb : b ≤ 255) :
-    toXyzPoint (xyzValues x y z r g b) = some [canon x, canon y, canon z, r, g, b] := by
-  unfold xyzValues
-  rw [toXyzPoint_eq]
-  obtain ⟨h1, h2, h3⟩ := F.coords x y z hx hy hz
-  rw [h1, h2, h3, C r (by omega), C g (by omega), C b (by omega)]
-
-/-- what e57-to-xyz prints for a stored point of the tool's prototype -/
-def viewBack (pt : List Value) : List Nat :=
-  pt.map (fun v => match v with
-    | .single b => canon b
-    | .integer i => i.toNat
-    | _ => 0)
-
-theorem viewBack_xyzValues (x y z : UInt32) (r g b : Nat) :
-    viewBack (xyzValues x y z r g b) = [canon x, canon y, canon z, r, g, b] := by
-  simp [viewBack, xyzValues]
-
-
-/-- every converted point has the shape `[x, y, z, r, g, b]` with 8-bit colours -/
-theorem xyzPoints_shape (fp : FloatParse) (lines : List String) (pts : List (List Value))
-    (h : xyzPoints fp lines = some pts) :
-    ∀ pt ∈ pts, ∃ x y z r g b, pt = xyzValues x y z r g b ∧ r ≤ 255 ∧ g ≤ 255 ∧ b ≤ 255 := by
-  obtain ⟨e, _⟩ := xyzPoints_eq fp lines pts h
-  intro pt hpt
-  rw [e, List.mem_filterMap] at hpt
-  obtain ⟨l, _, hl⟩ := hpt
-  have hl' : fromXyzLine fp l = some (some pt) := by
-    cases hf : fromXyzLine fp l with
-    | none => rw [hf] at hl; cases hl
-    | some o =>
-      rw [hf] at hl
-      cases o with
-      | none => cases hl
-      | some v => cases hl; rfl
-  obtain ⟨_, x, y, z, r, g, b, _, _, _, h3, h4, h5, rfl⟩ := (fromXyzLine_spec fp l pt).1 hl'
-  exact ⟨x, y, z, r, g, b, rfl, parseUnsigned_le _ _ _ h3, parseUnsigned_le _ _ _ h4,
-    parseUnsigned_le _ _ _ h5⟩
-
-/-- **C20, XYZ → E57 → XYZ, value level**: for a text file that is converted without a parse error and
-    whose coordinates are finite, the numbers e57-to-xyz obtains from the stored points are, line by
-    converted line and in order, the `f32` coordinates (`−0.0` as `+0.0`) and the 8-bit colours that
-    e57-from-xyz parsed.  Relative to `IEEEFacts` and `ColourTable` (hardware floats). -/
-theorem xyzRoundTrip_spec (F : IEEEFacts) (C : ColourTable) (fp : FloatParse) (lines : List String)
-    (pts : List (List Value)) (h : xyzPoints fp lines = some pts)
-    (hfin : ∀ pt ∈ pts, ∀ b, Value.single b ∈ pt → Fin32 b) :
-    xyzRoundTrip fp lines = some (pts.map viewBack) := by
-  rw [xyzRoundTrip_eq, h, Option.map_some]
-  congr 1
-  have hs := xyzPoints_shape fp lines pts h
-  clear h
-  induction pts with
-  | nil => rfl
-  | cons pt rest ih =>
-    obtain ⟨x, y, z, r, g, b, rfl, hr, hg, hb⟩ := hs _ (List.mem_cons_self)
-    have hf := hfin _ (List.mem_cons_self)
-    have e := toXyzPoint_roundtrip F C x y z r g b (hf x (by simp [xyzValues]))
-      (hf y (by simp [xyzValues])) (hf z (by simp [xyzValues])) hr hg hb
-    rw [List.filterMap_cons, e, List.map_cons, viewBack_xyzValues,
-      ih (fun pt hpt => hfin pt (List.mem_cons_of_mem _ hpt)) (fun pt hpt => hs pt (List.mem_cons_of_mem _ hpt))]
+/-- **the identity pose is not the identity on −0.0**: `transformPoint` with the rotation and translation
+    prepared for a point cloud without a pose turns the stored −0.0 (`0x80000000`) into +0.0 (`0`), while
+    the repaired path returns it unchanged (`xyz_coords_bits_special`).  Relative to `IdentityPoseFacts`;
+    evaluation on the hardware agrees. -/
+theorem identity_pose_not_neutral (F : IdentityPoseFacts) :
+    poseX 0x80000000 0 0 = 0 ∧ poseX 0x80000000 0 0 ≠ (0x80000000 : UInt32).toNat := by
+  have h := (F.coords 0x80000000 0 0 (by decide) (by decide) (by decide)).1
+  rw [h]; decide
 
 /-! # Non-vacuity -/
 
